@@ -1,25 +1,29 @@
 (** C14 - every style the builder accepts can be rendered without panicking.
 
-    Transcribes, from /repo/src/style.rs (HEAD, after the fix: commits b968e56, 16b074b,
-    8070567, 1ac360f):
+    Transcribes, from /repo/src/style.rs (commit 6ff82af, i.e. after the fix: commits b968e56,
+    16b074b, 8070567, 1ac360f, 6ff82af; all line numbers below are those of that commit):
       - width()                                   (style.rs:58-69)   [width_of]
       - ProgressStyle::new / default_bar / default_spinner / with_template (73-108)
-      - tick_chars / tick_strings / progress_chars / with_key / template   (114-172)
+      - tick_chars / tick_strings / progress_chars / with_key / template   (114-174)
         with their assertions AS CODED                                     [bstep]
       - set_tab_width (89-92, reached through ProgressBar::set_style)      [OSetTab]
-      - get_tick_str / get_final_tick_str / current_tick_str (174-189)
-      - format_bar + BarDisplay::fmt (191-232, 701-711)                    [format_bar]
-      - the partial operations of format_state (234-396), push_line (399-425),
-        WideElement::expand (443-483), PaddedStringDisplay::fmt (734-769)  [render_outcome]
+      - get_tick_str / get_final_tick_str / current_tick_str (176-191)
+      - format_bar + BarDisplay::fmt (193-234, 705-715)                    [format_bar]
+      - the partial operations of format_state (236-400), push_line (403-429),
+        WideElement::expand (447-487), PaddedStringDisplay::fmt (738-773),
+        TabRewriter::write_str (434-439)                                   [render_outcome]
+      - TabExpandedString::{new, expanded} (state.rs:371-395)             [expanded_site]
     and from /repo/src/draw_target.rs the partial operations of one frame:
-      - LineType::wrapped_height (703-713), visual_line_count (689-693),
-        DrawState::draw_to_term (514-627)   (line numbers of /repo at commit 951c29f)                                  [frame_outcome]
+      - LineType::wrapped_height (709-719), visual_line_count (695-699),
+        DrawState::draw_to_term (514-633)                                  [frame_outcome]
+    The template parser is C10's three-outcome [parse_full] (Template.v).
 
     A "site" is a program point that can panic: an assertion, an `unwrap`, an index, a
     division / remainder, or a `+`/`-` on usize that panics when overflow checks are on
-    (debug build, and the harness build).  Site codes are the line number in style.rs, or
-    10000 + the line number in draw_target.rs; where one line holds several sites a
-    digit is appended.
+    (debug build, and the harness build), or a `debug_assert!`.  Site codes are the line
+    number in style.rs, 10000 + the line number in draw_target.rs, 20000 + the line number in
+    state.rs, 30000 + the line of the call in style.rs for a site inside the console crate;
+    where one line holds several sites a digit is appended.
 
     What depends on the CONTENT of strings or on f32 arithmetic is not computed by this
     model but supplied by an [oracles] record over which every theorem quantifies
@@ -41,23 +45,33 @@ Definition SITE_TICK_CHARS : N := 118.     (* assert!(tick_strings.len() >= 2) i
 Definition SITE_TICK_STRINGS : N := 133.   (* assert!(tick_strings.len() >= 2) in tick_strings *)
 Definition SITE_PCHARS_LT2 : N := 148.     (* assert!(progress_chars.len() >= 2) *)
 Definition SITE_PCHARS_ZERO : N := 153.    (* assert!(char_width > 0) *)
-Definition SITE_TICK_SUB : N := 1831.      (* :183 tick_strings.len() - 1   (usize underflow) *)
-Definition SITE_TICK_REM : N := 1832.      (* :183 idx % (len - 1)          (remainder by zero) *)
-Definition SITE_TICK_IDX : N := 1833.      (* :183 tick_strings[..]         (index) *)
-Definition SITE_FINAL_SUB : N := 1881.     (* :188 tick_strings.len() - 1 *)
-Definition SITE_FINAL_IDX : N := 1882.     (* :188 tick_strings[len - 1] *)
-Definition SITE_BAR_DIV : N := 193.        (* width / self.char_width *)
-Definition SITE_BAR_LAST : N := 222.       (* progress_chars[progress_chars.len() - 1] *)
-Definition SITE_BAR_IDX0 : N := 704.       (* self.chars[0] *)
-Definition SITE_BAR_CUR : N := 707.        (* self.chars[cur] *)
-Definition SITE_PRECISION : N := 320.      (* "{:.1$}": a precision argument above u16::MAX panics in core::fmt *)
-Definition SITE_TAB_REPEAT : N := 433.     (* " ".repeat(tab_width): capacity overflow above isize::MAX - TabRewriter::write_str
-                                              (style.rs:433) and TabExpandedString::expanded (state.rs:393) *)
-Definition SITE_PAD_LEFT : N := 742.       (* self.str.len() - excess *)
-Definition SITE_PAD_CENTER : N := 746.     (* self.str.len() - excess.saturating_sub(excess / 2) *)
-Definition SITE_REAL_ADD : N := 10590.     (* draw_target.rs:590 real_height += line_height *)
-Definition SITE_REPEAT : N := 10610.       (* draw_target.rs:610 " ".repeat(n): capacity overflow above isize::MAX *)
-Definition SITE_COUNT_ADD : N := 10624.    (* draw_target.rs:624 real_height + shift *)
+Definition SITE_PCHARS_TAB : N := 158.     (* assert!(!s.contains('\t'), "progress chars must not contain tabs") *)
+Definition SITE_TICK_SUB : N := 1851.      (* :185 tick_strings.len() - 1   (usize underflow) *)
+Definition SITE_TICK_REM : N := 1852.      (* :185 idx % (len - 1)          (remainder by zero) *)
+Definition SITE_TICK_IDX : N := 1853.      (* :185 tick_strings[..]         (index) *)
+Definition SITE_FINAL_SUB : N := 1901.     (* :190 tick_strings.len() - 1 *)
+Definition SITE_FINAL_IDX : N := 1902.     (* :190 tick_strings[len - 1] *)
+Definition SITE_BAR_DIV : N := 195.        (* width / self.char_width *)
+Definition SITE_BAR_LAST : N := 224.       (* progress_chars[progress_chars.len() - 1] *)
+Definition SITE_BAR_IDX0 : N := 708.       (* self.chars[0] *)
+Definition SITE_BAR_CUR : N := 711.        (* self.chars[cur] *)
+Definition SITE_PRECISION : N := 324.      (* "{:.1$}": a precision argument above u16::MAX panics in core::fmt *)
+Definition SITE_TAB_REPEAT : N := 437.     (* " ".repeat(tab_width): capacity overflow above isize::MAX - TabRewriter::write_str
+                                              (style.rs:437) and TabExpandedString::expanded (state.rs:393) *)
+Definition SITE_PAD_LEFT : N := 746.       (* self.str.len() - excess *)
+Definition SITE_PAD_CENTER : N := 750.     (* self.str.len() - excess.saturating_sub(excess / 2) *)
+Definition SITE_PAD_ROWS_SUB : N := 10567. (* draw_target.rs:567 shift - usize::from(full_screen_padding) *)
+Definition SITE_REAL_ADD : N := 10594.     (* draw_target.rs:594 real_height += line_height *)
+Definition SITE_REPEAT : N := 10614.       (* draw_target.rs:614 " ".repeat(n): capacity overflow above isize::MAX *)
+Definition SITE_COUNT_ADD : N := 10630.    (* draw_target.rs:630 real_height + shift *)
+Definition SITE_NOTABS_ASSERT : N := 20386. (* state.rs:386 debug_assert!(!s.contains('\t')) in expanded(), NoTabs arm *)
+(* sites of the template parser (Template.psite): none is reachable (C10_no_panic) *)
+Definition psite_code (p : psite) : N :=
+  match p with
+  | SiteWidthUnwrap => 600
+  | SiteStyleOnSlice => 30608
+  | SiteAltOnSlice => 30614
+  end.
 
 Definition USIZE_MAX : N := U64MAX.
 Definition ISIZE_MAX : N := 9223372036854775807.
@@ -66,6 +80,7 @@ Definition ISIZE_MAX : N := 9223372036854775807.
 (* a grapheme cluster of progress_chars: its scalar values, and what `measure` (style.rs:46-54,
    unicode_width::UnicodeWidthStr::width) answers for it - DATA supplied with the argument *)
 Record cluster := mkcl { cl_text : list N; cl_w : N }.
+Definition has_tab (s : list N) : bool := existsb (N.eqb 9) s.       (* str::contains('\t') *)
 
 Record style := mkstyle {
   st_ticks : list (list N);      (* tick_strings *)
@@ -114,19 +129,22 @@ Inductive ctor := CDefaultBar | CDefaultSpinner | CWithTemplate (s : list N).
 Definition construct (c : ctor) : bres :=
   match c with
   | CDefaultBar =>                                                      (* :73-75 *)
-      match parse DEFAULT_BAR_TEMPLATE with
-      | POk ps => new_style ps
-      | PErr _ _ => BPanic SITE_DEFAULT_UNWRAP
+      match parse_full DEFAULT_BAR_TEMPLATE with
+      | PRes (POk ps) => new_style ps
+      | PRes (PErr _ _) => BPanic SITE_DEFAULT_UNWRAP
+      | PPanic site => BPanic (psite_code site)
       end
   | CDefaultSpinner =>                                                  (* :78-80 *)
-      match parse DEFAULT_SPINNER_TEMPLATE with
-      | POk ps => new_style ps
-      | PErr _ _ => BPanic SITE_DEFAULT_UNWRAP
+      match parse_full DEFAULT_SPINNER_TEMPLATE with
+      | PRes (POk ps) => new_style ps
+      | PRes (PErr _ _) => BPanic SITE_DEFAULT_UNWRAP
+      | PPanic site => BPanic (psite_code site)
       end
   | CWithTemplate s =>                                                  (* :85-87 *)
-      match parse s with
-      | POk ps => new_style ps
-      | PErr st c => BErr st c
+      match parse_full s with
+      | PRes (POk ps) => new_style ps
+      | PRes (PErr st c) => BErr st c
+      | PPanic site => BPanic (psite_code site)
       end
   end.
 
@@ -147,19 +165,22 @@ Definition bstep (st : style) (o : bop) : bres :=
   | OTickStrings l =>                                                   (* :129-138 *)
       if nlen l <? 2 then BPanic SITE_TICK_STRINGS
       else BOk (mkstyle l (st_chars st) (st_cw st) (st_parts st) (st_keys st) (st_tab st))
-  | OProgressChars cl =>                                                (* :144-158 *)
+  | OProgressChars cl =>                                                (* :144-160 *)
       if nlen cl <? 2 then BPanic SITE_PCHARS_LT2                       (* :148 *)
       else match width_of cl with                                       (* :152 *)
            | Panic s => BPanic s
            | Ok w => if w =? 0 then BPanic SITE_PCHARS_ZERO             (* :153 *)
+                     else if existsb (fun c => has_tab (cl_text c)) cl  (* :158 the argument is the *)
+                     then BPanic SITE_PCHARS_TAB                        (*      concatenation of cl *)
                      else BOk (mkstyle (st_ticks st) cl w (st_parts st) (st_keys st) (st_tab st))
            end
-  | OTemplate s =>                                                      (* :169-172 *)
-      match parse s with
-      | POk ps => BOk (mkstyle (st_ticks st) (st_chars st) (st_cw st) ps (st_keys st) (st_tab st))
-      | PErr s' c => BErr s' c
+  | OTemplate s =>                                                      (* :171-174 *)
+      match parse_full s with
+      | PRes (POk ps) => BOk (mkstyle (st_ticks st) (st_chars st) (st_cw st) ps (st_keys st) (st_tab st))
+      | PRes (PErr s' c) => BErr s' c
+      | PPanic site => BPanic (psite_code site)
       end
-  | OWithKey k =>                                                       (* :161-164 *)
+  | OWithKey k =>                                                       (* :163-166 *)
       BOk (mkstyle (st_ticks st) (st_chars st) (st_cw st) (st_parts st) (k :: st_keys st) (st_tab st))
   | OSetTab w =>                                                        (* :89-92 *)
       BOk (mkstyle (st_ticks st) (st_chars st) (st_cw st) (st_parts st) (st_keys st) w)
@@ -199,24 +220,24 @@ Record snapshot := mksnap {
   sn_prefix_tab : bool }.
 
 (* the integers format_bar derives through f32 arithmetic and saturating `as usize` casts
-   (style.rs:195-212): any usize / bool *)
+   (style.rs:197-214): any usize / bool *)
 Record fbar := mkfbar {
-  fb_filled : N;              (* :197 entirely_filled = fill as usize *)
-  fb_head : bool;             (* :200 fill > 0.0 && entirely_filled < width *)
-  fb_k : N }.                 (* :212 (fill.fract() * n as f32) as usize *)
+  fb_filled : N;              (* :199 entirely_filled = fill as usize *)
+  fb_head : bool;             (* :202 fill > 0.0 && entirely_filled < width *)
+  fb_k : N }.                 (* :214 (fill.fract() * n as f32) as usize *)
 
 Record oracles := mkor {
-  o_meas : nat -> mtext;      (* `buf` after the key of template part #i has been written (:256-363) *)
+  o_meas : nat -> mtext;      (* `buf` after the key of template part #i has been written (:258-367) *)
   o_writes : nat -> bool;     (* the with_key tracker of part #i calls write_str at least once *)
   o_bar : N -> fbar;          (* per bar width in clusters *)
-  o_cur_cols : nat -> N;      (* :452 measure_text_width(cur without NUL) when push_line runs at part #i *)
-  o_cur_nonempty : bool;      (* :393 !cur.is_empty() after the last part *)
+  o_cur_cols : nat -> N;      (* :456 measure_text_width(cur without NUL) when push_line runs at part #i *)
+  o_cur_nonempty : bool;      (* :397 !cur.is_empty() after the last part *)
   o_lines : list N }.         (* console_width() of every line handed to the draw target *)
 
 Definition oseq {A} (o : outcome unit) (k : outcome A) : outcome A :=
   match o with Ok _ => k | Panic s => Panic s end.
 
-(** get_tick_str (style.rs:182-184); [idx as usize] is the identity on a 64 bit target.
+(** get_tick_str (style.rs:184-186); [idx as usize] is the identity on a 64 bit target.
     With overflow checks off `len() - 1` wraps for an empty vector and the index panics
     instead: a panic either way. *)
 Definition get_tick_str (ticks : list (list N)) (idx : N) : outcome (list N) :=
@@ -228,7 +249,7 @@ Definition get_tick_str (ticks : list (list N)) (idx : N) : outcome (list N) :=
        | None => Panic SITE_TICK_IDX
        end.
 
-(** get_final_tick_str (style.rs:187-189) *)
+(** get_final_tick_str (style.rs:189-191) *)
 Definition get_final_tick_str (ticks : list (list N)) : outcome (list N) :=
   let n := nlen ticks in
   if n =? 0 then Panic SITE_FINAL_SUB
@@ -237,52 +258,70 @@ Definition get_final_tick_str (ticks : list (list N)) : outcome (list N) :=
        | None => Panic SITE_FINAL_IDX
        end.
 
-(** current_tick_str (style.rs:174-179) *)
+(** current_tick_str (style.rs:176-181) *)
 Definition current_tick_str (st : style) (sn : snapshot) : outcome (list N) :=
   if sn_finished sn then get_final_tick_str (st_ticks st)
   else get_tick_str (st_ticks st) (sn_tick sn).
 
-(** format_bar (style.rs:191-232) followed by BarDisplay::fmt (701-711); both callers format
+(** format_bar (style.rs:193-234) followed by BarDisplay::fmt (705-715); both callers format
     the returned BarDisplay at once.  [width] is in columns. *)
 Definition bar_cur (n : N) (fb : fbar) : option N :=
   if fb_head fb then
-    let m := n - 2 in                                   (* :204 saturating_sub(2) *)
-    Some (if m <=? 1 then 1 else m - fb_k fb)           (* :205-213, saturating_sub *)
+    let m := n - 2 in                                   (* :206 saturating_sub(2) *)
+    Some (if m <=? 1 then 1 else m - fb_k fb)           (* :207-215, saturating_sub *)
   else None.
 
 Definition format_bar (st : style) (O : oracles) (width : N) : outcome unit :=
-  if st_cw st =? 0 then Panic SITE_BAR_DIV else         (* :193 *)
+  if st_cw st =? 0 then Panic SITE_BAR_DIV else         (* :195 *)
   let cells := width / st_cw st in
   let fb := o_bar O cells in
   let n := nlen (st_chars st) in
   let cur := bar_cur n fb in
-  if n =? 0 then Panic SITE_BAR_LAST else               (* :222 len() - 1 and the index *)
-  if (0 <? fb_filled fb) && (n =? 0) then Panic SITE_BAR_IDX0 else   (* :704 *)
+  if n =? 0 then Panic SITE_BAR_LAST else               (* :224 len() - 1 and the index *)
+  if (0 <? fb_filled fb) && (n =? 0) then Panic SITE_BAR_IDX0 else   (* :708 *)
   match cur with
-  | Some c => if c <? n then Ok tt else Panic SITE_BAR_CUR           (* :707 *)
+  | Some c => if c <? n then Ok tt else Panic SITE_BAR_CUR           (* :711 *)
   | None => Ok tt
   end.
 
-(** PaddedStringDisplay::fmt (style.rs:734-769): the two usize subtractions; everything
+(** PaddedStringDisplay::fmt (style.rs:738-773): the two usize subtractions; everything
     else (saturating_sub, str::get(..).unwrap_or, the padding loops) is total *)
 Definition padded_sites (t : mtext) (width : N) (a : align) (trunc : bool) : outcome unit :=
-  let excess := mt_cols t - width in                    (* :737 saturating_sub *)
-  if (0 <? excess) && negb trunc then Ok tt             (* :738 *)
+  let excess := mt_cols t - width in                    (* :741 saturating_sub *)
+  if (0 <? excess) && negb trunc then Ok tt             (* :742 *)
   else if 0 <? excess then
     match a with
-    | ALeft => if mt_len t <? excess then Panic SITE_PAD_LEFT else Ok tt                  (* :742 *)
-    | ARight => Ok tt                                                                      (* :743 *)
-    | ACenter => if mt_len t <? excess - excess / 2 then Panic SITE_PAD_CENTER else Ok tt  (* :746 *)
+    | ALeft => if mt_len t <? excess then Panic SITE_PAD_LEFT else Ok tt                  (* :746 *)
+    | ARight => Ok tt                                                                      (* :747 *)
+    | ACenter => if mt_len t <? excess - excess / 2 then Panic SITE_PAD_CENTER else Ok tt  (* :750 *)
     end
   else Ok tt.
 
-(** `" ".repeat(tab_width)`: evaluated by TabRewriter::write_str on EVERY call (style.rs:431-434,
+(** `" ".repeat(tab_width)`: evaluated by TabRewriter::write_str on EVERY call (style.rs:434-439,
     whether or not the text has a tab) and by TabExpandedString::expanded for a text that has
-    one (state.rs:383-395).  Vec capacity is limited to isize::MAX bytes. *)
+    one (state.rs:393).  Vec capacity is limited to isize::MAX bytes: above it `repeat` panics
+    ("capacity overflow").  At or below it the model lets the call succeed: it has NO outcome for
+    a failed allocation (the process aborts - not a panic) nor for the `replace` result growing
+    beyond isize::MAX (#tabs * tab_width > isize::MAX) - assumption A4, see docs/C14.md. *)
 Definition tab_site (st : style) (needed : bool) : outcome unit :=
   if needed && (ISIZE_MAX <? st_tab st) then Panic SITE_TAB_REPEAT else Ok tt.
-Definition has_tab (s : list N) : bool := existsb (N.eqb 9) s.
 
+(** TabExpandedString (state.rs:361-410).  Values are only ever built by `new` (371-381), which
+    chooses NoTabs exactly for tab-free text, and by the literal NoTabs("") of
+    ProgressState::new (state.rs:271-272); set_tab_width (397-409) keeps the variant.
+    `expanded` (383-395): the NoTabs arm holds a debug_assert (a panic site of debug builds),
+    the WithTabs arm the `repeat`. *)
+Inductive tes_variant := VNoTabs | VWithTabs.
+Definition tes_new (text_has_tab : bool) : tes_variant :=
+  if text_has_tab then VWithTabs else VNoTabs.                          (* state.rs:372 *)
+Definition expanded_site (st : style) (v : tes_variant) (text_has_tab : bool) : outcome unit :=
+  match v with
+  | VNoTabs => if text_has_tab then Panic SITE_NOTABS_ASSERT else Ok tt (* state.rs:386 *)
+  | VWithTabs => tab_site st true                                       (* state.rs:393 *)
+  end.
+(* `x.expanded()` of a value made by `new` from a text with / without a tab *)
+Definition expanded_new (st : style) (text_has_tab : bool) : outcome unit :=
+  expanded_site st (tes_new text_has_tab) text_has_tab.
 Inductive wide := WBar | WMsg (a : align).
 
 Module KeyNames.
@@ -298,29 +337,29 @@ Module KeyNames.
 End KeyNames.
 Definition key_is (k c : list N) : bool := list_eqb N.eqb k c.
 
-(** one Placeholder part (style.rs:248-385): the sites of the key's arm, then of the padding.
+(** one Placeholder part (style.rs:250-389): the sites of the key's arm, then of the padding.
     Returns the new value of `wide` if the arm assigns it. *)
 Definition placeholder_sites (st : style) (sn : snapshot) (O : oracles) (i : nat) (p : ph)
   : outcome (option wide) :=
   let key := ph_key p in
   let arm : outcome (option wide * mtext) :=
-    if existsb (list_eqb N.eqb key) (st_keys st) then                         (* :257-258 tracker.write *)
+    if existsb (list_eqb N.eqb key) (st_keys st) then                         (* :259-260 tracker.write *)
       oseq (tab_site st (o_writes O i)) (Ok (None, o_meas O i))
-    else if key_is key KeyNames.wide_bar then Ok (Some WBar, o_meas O i)             (* :261-264 *)
-    else if key_is key KeyNames.bar then                                              (* :265-274 *)
+    else if key_is key KeyNames.wide_bar then Ok (Some WBar, o_meas O i)             (* :263-266 *)
+    else if key_is key KeyNames.bar then                                              (* :267-276 *)
       oseq (format_bar st O (match ph_width p with Some w => w | None => DEFAULT_BAR_WIDTH end))
           (Ok (None, o_meas O i))
-    else if key_is key KeyNames.spinner then                                          (* :275 *)
+    else if key_is key KeyNames.spinner then                                          (* :277-279 *)
       match current_tick_str st sn with
-      | Ok _ => Ok (None, o_meas O i)
+      | Ok _ => oseq (tab_site st true) (Ok (None, o_meas O i))    (* TabRewriter(..).write_str(tick) *)
       | Panic s => Panic s
       end
-    else if key_is key KeyNames.wide_msg then Ok (Some (WMsg (ph_align p)), o_meas O i)   (* :276-279 *)
-    else if key_is key KeyNames.msg then                                       (* :280 *)
-      oseq (tab_site st (sn_msg_tab sn)) (Ok (None, sn_msg sn))
-    else if key_is key KeyNames.prefix then                                    (* :281 *)
-      oseq (tab_site st (sn_prefix_tab sn)) (Ok (None, sn_prefix sn))
-    else if key_is key KeyNames.per_sec then                                          (* :318-333 *)
+    else if key_is key KeyNames.wide_msg then Ok (Some (WMsg (ph_align p)), o_meas O i)   (* :280-283 *)
+    else if key_is key KeyNames.msg then                                       (* :284 *)
+      oseq (expanded_new st (sn_msg_tab sn)) (Ok (None, sn_msg sn))
+    else if key_is key KeyNames.prefix then                                    (* :285 *)
+      oseq (expanded_new st (sn_prefix_tab sn)) (Ok (None, sn_prefix sn))
+    else if key_is key KeyNames.per_sec then                                          (* :322-337 *)
       match ph_width p with
       | Some w => if U16 <=? w then Panic SITE_PRECISION else Ok (None, o_meas O i)
       | None => Ok (None, o_meas O i)
@@ -329,48 +368,48 @@ Definition placeholder_sites (st : style) (sn : snapshot) (O : oracles) (i : nat
   match arm with
   | Panic s => Panic s
   | Ok (nw, buf) =>
-      oseq (match ph_width p with                                               (* :365-384 *)
+      oseq (match ph_width p with                                               (* :369-388 *)
            | Some w => padded_sites buf w (ph_align p) (ph_trunc p)
            | None => Ok tt
            end)
           (Ok nw)
   end.
 
-(** push_line (style.rs:399-425) -> WideElement::expand (443-483) when `wide` is set *)
+(** push_line (style.rs:403-429) -> WideElement::expand (447-487) when `wide` is set *)
 Definition push_line_sites (st : style) (sn : snapshot) (O : oracles) (i : nat)
            (wd : option wide) (tw : N) : outcome unit :=
   match wd with
   | None => Ok tt
   | Some w =>
-      let left := tw - o_cur_cols O i in                 (* :452 saturating_sub *)
+      let left := tw - o_cur_cols O i in                 (* :456 saturating_sub *)
       match w with
-      | WBar => format_bar st O left                     (* :454-460 (the format! runs even without a NUL) *)
-      | WMsg a => oseq (tab_site st (sn_msg_tab sn))      (* :466 state.message.expanded() *)
-                       (padded_sites (sn_msg sn) left a true)   (* :461-472 *)
+      | WBar => format_bar st O left                     (* :458-464 (the format! runs even without a NUL) *)
+      | WMsg a => oseq (expanded_new st (sn_msg_tab sn))  (* :470 state.message.expanded() *)
+                       (padded_sites (sn_msg sn) left a true)   (* :465-476 *)
       end
   end.
 
-(** the loop of format_state (style.rs:246-391); `wide` is never reset between lines *)
+(** the loop of format_state (style.rs:248-395); `wide` is never reset between lines *)
 Fixpoint walk (st : style) (sn : snapshot) (O : oracles) (tw : N) (i : nat) (ps : list part)
          (wd : option wide) : outcome (option wide) :=
   match ps with
   | [] => Ok wd
-  | PLit s :: r => oseq (tab_site st (has_tab s)) (walk st sn O tw (S i) r wd)   (* :386 s.expanded() *)
+  | PLit s :: r => oseq (expanded_new st (has_tab s)) (walk st sn O tw (S i) r wd)   (* :390 s.expanded() *)
   | PPh p :: r =>
       match placeholder_sites st sn O i p with
       | Panic s => Panic s
       | Ok nw => walk st sn O tw (S i) r (match nw with Some x => Some x | None => wd end)
       end
-  | PNewLine :: r =>                                                           (* :387-389 *)
+  | PNewLine :: r =>                                                           (* :391-393 *)
       oseq (push_line_sites st sn O i wd tw) (walk st sn O tw (S i) r wd)
   end.
 
-(** format_state (style.rs:234-396) *)
+(** format_state (style.rs:236-400) *)
 Definition render_outcome (st : style) (sn : snapshot) (tw : N) (O : oracles) : outcome unit :=
   match walk st sn O tw 0 (st_parts st) None with
   | Panic s => Panic s
   | Ok wd =>
-      if o_cur_nonempty O then push_line_sites st sn O (length (st_parts st)) wd tw   (* :393-395 *)
+      if o_cur_nonempty O then push_line_sites st sn O (length (st_parts st)) wd tw   (* :397-399 *)
       else Ok tt
   end.
 
@@ -378,40 +417,43 @@ Definition render_outcome (st : style) (sn : snapshot) (tw : N) (O : oracles) : 
 Definition sat_addu (a b : N) : N := N.min USIZE_MAX (a + b).
 Definition sat_mulu (a b : N) : N := N.min USIZE_MAX (a * b).
 
-(** LineType::wrapped_height (draw_target.rs:703-713): ceil(cols as f64 / width as f64) as usize,
+(** LineType::wrapped_height (draw_target.rs:709-719): ceil(cols as f64 / width as f64) as usize,
     at least 1.  width = 0: x/0 = +inf -> usize::MAX, 0/0 = NaN -> 0 -> 1.  For width > 0 the
     f64 ceiling is taken to be the exact one (docs/C14.md, assumption A3). *)
 Definition wrapped_height (cols tw : N) : N :=
   if tw =? 0 then (if cols =? 0 then 1 else USIZE_MAX)
   else N.max 1 ((cols + tw - 1) / tw).
 
-(* visual_line_count (draw_target.rs:689-693) *)
+(* visual_line_count (draw_target.rs:695-699) *)
 Definition visual_line_count (ls : list N) (tw : N) : N :=
   fold_left (fun acc c => sat_addu acc (wrapped_height c tw)) ls 0.
 
-(* the paint loop (draw_target.rs:573-612); every line is a Bar line, so `padded` (:558) is true
-   from the start and the padding rows are written before the loop (:562-566) *)
+(* the paint loop (draw_target.rs:577-616); every line is a Bar line, so `padded` (:558) is true
+   from the start and the padding rows are written before the loop (:566-570) *)
 Fixpoint paint (ls : list N) (idx total tw th real : N) : outcome N :=
   match ls with
   | [] => Ok real
   | c :: r =>
-      let h := wrapped_height c tw in                                     (* :574 *)
-      if th <? sat_addu real h then Ok real                               (* :579 break *)
-      else if USIZE_MAX <? real + h then Panic SITE_REAL_ADD              (* :590 *)
-      else if ((idx + 1 =? total) || ((idx =? 0) && (c =? 0)))           (* :603 *)
-              && (ISIZE_MAX <? sat_mulu h tw - c)                         (* :606-610 *)
+      let h := wrapped_height c tw in                                     (* :578 *)
+      if th <? sat_addu real h then Ok real                               (* :583 break *)
+      else if USIZE_MAX <? real + h then Panic SITE_REAL_ADD              (* :594 *)
+      else if ((idx + 1 =? total) || ((idx =? 0) && (c =? 0)))           (* :607 *)
+              && (ISIZE_MAX <? sat_mulu h tw - c)                         (* :610-614 *)
            then Panic SITE_REPEAT
       else paint r (idx + 1) total tw th (real + h)
   end.
 
-(** DrawState::draw_to_term (draw_target.rs:514-627); [n] = *bar_count before the call,
+(** DrawState::draw_to_term (draw_target.rs:514-633); [n] = *bar_count before the call,
     [bottom] = the alignment is MultiProgressAlignment::Bottom.  Returns the new *bar_count. *)
 Definition frame_outcome (ls : list N) (tw th n : N) (bottom : bool) : outcome N :=
   let full := visual_line_count ls tw in                                  (* :547 *)
   let shift := if bottom && (full <? n) then n - full else 0 in           (* :549-554; the subtraction is guarded by its own match arm *)
+  (* :564-565 an empty frame whose padding is as tall as the terminal *)
+  let full_screen := match ls with [] => (0 <? shift) && (th <=? shift) | _ => false end in
+  if full_screen && (shift =? 0) then Panic SITE_PAD_ROWS_SUB else        (* :567 shift - usize::from(..) *)
   match paint ls 0 (nlen ls) tw th 0 with
   | Panic s => Panic s
-  | Ok real => if USIZE_MAX <? real + shift then Panic SITE_COUNT_ADD     (* :624 *)
+  | Ok real => if USIZE_MAX <? real + shift then Panic SITE_COUNT_ADD     (* :630 *)
                else Ok (real + shift)
   end.
 
@@ -433,16 +475,19 @@ Definition StyleOK (st : style) : Prop :=
   /\ 2 <= nlen (st_chars st)
   /\ 1 <= st_cw st
   /\ Forall (fun c => cl_w c = st_cw st) (st_chars st)
+  /\ Forall (fun c => has_tab (cl_text c) = false) (st_chars st)
   /\ Forall part_ok (st_parts st).
 
 (** the documented contract of the builder methods (doc comments at style.rs:110-143,
     src/lib.rs): at least two tick strings / progress characters, progress characters of
-    equal, non-zero width; written independently of [bstep] *)
+    equal, non-zero width and none of them a TAB (a tab cannot be a cell of a bar: its expansion
+    is not char_width columns wide); written independently of [bstep] *)
 Definition accepts (o : bop) : Prop :=
   match o with
   | OTickChars s => 2 <= nlen s
   | OTickStrings l => 2 <= nlen l
-  | OProgressChars cl => 2 <= nlen cl /\ exists w, 1 <= w /\ Forall (fun c => cl_w c = w) cl
+  | OProgressChars cl => 2 <= nlen cl /\ (exists w, 1 <= w /\ Forall (fun c => cl_w c = w) cl)
+                         /\ Forall (fun c => ~ In 9 (cl_text c)) cl
   | OTemplate s => exists ps, parse s = POk ps
   | OWithKey _ | OSetTab _ => True
   end.
